@@ -226,3 +226,55 @@ def scenario(parts_steps, url=URL, ws_opts=None, connect_opts=None, reactions=No
         scn["reactions"] = reactions
     scn.update(extra)
     return scn
+
+
+# ---- an earlier connection in the same process ("prelude") -------------------------------------------------
+# How a PREVIOUS connection ended before the one under test is made - on the same WebSocket object or on
+# another one.  A client keeps no state between connections (C17), so none of this may show.
+def _prelude_streams():
+    from . import wire
+    B = wire.build_frame
+    import struct
+    return {
+        "clean_close": B(wire.TEXT, b"hi") + B(wire.CLOSE, struct.pack("!H", 1000) + b"bye"),
+        "close_reason_cut_mid_char": B(wire.CLOSE, struct.pack("!H", 1000) + b"caf\xc3"),
+        "close_reason_invalid": B(wire.CLOSE, struct.pack("!H", 1000) + b"\xff\xfe"),
+        "text_cut_mid_char": B(wire.TEXT, b"ab\xe2\x82", fin=0),
+        "text_cut_mid_4byte_char": B(wire.TEXT, b"\xf0\x9f", fin=0),
+        "text_invalid": B(wire.TEXT, b"\xc3\x28"),
+        "cut_in_len16": B(wire.TEXT, b"a" * 300)[:3],
+        "cut_in_len64": B(wire.BINARY, b"a" * 70000)[:5],
+        "cut_in_header": B(wire.TEXT, b"abc")[:1],
+        "cut_in_payload": B(wire.BINARY, b"b" * 300)[:40],
+        "open_text_fragment": B(wire.TEXT, b"abc", fin=0),
+        "open_binary_fragment": B(wire.BINARY, b"abc", fin=0) + B(wire.PING, b"p"),
+        "reserved_bits": B(wire.TEXT, b"x", rsv2=1),
+        "oversize_control": B(wire.PING, b"p" * 126),
+        "ping_then_eof": B(wire.PING, b"last"),
+        "nothing": b"",
+    }
+
+
+PRELUDE_REPLIES = {
+    # the handshake of the earlier connection itself went wrong
+    "reply_cut_after_status_line": {"raw": b"HTTP/1.1 101 Switching Protocols\r\n".hex()},
+    "reply_cut_in_header": {"raw": b"HTTP/1.1 101 Switching Protocols\r\nUpgrade: websoc".hex()},
+    "reply_403": {"status": 403, "reason": "Forbidden", "headers": [["Content-Length", "0"]]},
+}
+PRELUDE_KINDS = sorted(_prelude_streams()) + sorted(PRELUDE_REPLIES)
+PRELUDE_ENDS = ("eof", "reset")
+
+
+def prelude(spec, reply=None):
+    """spec = None | {"kind": one of PRELUDE_KINDS, "same": bool, "end": "eof"|"reset"} -> the scenario's
+    "prelude" value (None when spec is None).  ``reply`` = the handshake reply spec of the earlier connection
+    (the caller's own, e.g. with the extension negotiated)."""
+    if not spec:
+        return None
+    kind = spec["kind"]
+    if kind in PRELUDE_REPLIES:
+        parts = [["reply", PRELUDE_REPLIES[kind]]]
+    else:
+        parts = [["reply", reply], ["bytes", _prelude_streams()[kind]]]
+    script = [["wait_request"], ["stream", parts, "whole", 0.0], [spec.get("end", "eof"), 0.0]]
+    return {"attempts": [{"script": script}], "same_object": bool(spec.get("same"))}
